@@ -375,6 +375,7 @@ func driver(args []string) int {
 		}
 	}
 	var reported, knownMatched []string
+	notReproduced := 0
 	for _, k := range sortedKeys(byClass) {
 		v := byClass[k]
 		if v.Replay == nil {
@@ -406,8 +407,12 @@ func driver(args []string) int {
 			}
 		}
 		if !confirmed {
-			fmt.Printf("ERROR: violation %s did not reproduce from its replay file in a fresh process (harness not deterministic?): %s\n", k, path)
-			return 2
+			// state the replay file does not carry (a sync.Pool, package state that cannot be
+			// reset) can make a violation depend on what the worker ran before: it is dropped,
+			// loudly, and the run ends without a verdict unless something else was confirmed
+			fmt.Printf("note: violation %s did not reproduce from its replay file in a fresh process and is dropped: %s\n", k, path)
+			notReproduced++
+			continue
 		}
 		if kf := matchKnown(known, v); kf != nil {
 			fmt.Printf("KNOWN-FINDING: property=%s %s [%s/%s, %d case(s), replay=%s]\n", v.Property, kf.What, v.Op, v.Clause, v.Count, path)
@@ -447,6 +452,10 @@ func driver(args []string) int {
 	}
 	if tot.RecheckBad > 0 {
 		fmt.Printf("note: %d of %d re-executed cases did not reproduce their event hash: the tree contains nondeterminism the simulator does not own (see unowned_nondeterminism; sync.Pool reuse, state that cannot be reset)\n", tot.RecheckBad, tot.Rechecks)
+	}
+	if notReproduced > 0 && exit == 0 {
+		fmt.Printf("ERROR: %d violation(s) did not reproduce from their replay files and nothing else was confirmed: no verdict\n", notReproduced)
+		exit = 2
 	}
 	if laneBUnreproduced && exit == 0 {
 		fmt.Println("ERROR: a lane-B race report did not reproduce and nothing else was confirmed: no verdict")
